@@ -834,6 +834,9 @@ func runC20(c *core.Ctx, i int) {
 	if i%32 == 9 {
 		c20concurrentRegistrations(c, c.Rand(i, 55))
 	}
+	if i%16 == 6 {
+		c20codecOnly(c, c.Rand(i, 66))
+	}
 	if i%4 == 1 {
 		// the library's own registrations (null.*, time.Time) in every position under every schema they accept
 		c20builtinPositions(c, c.Rand(i, 77), 3)
@@ -1011,6 +1014,59 @@ func runC20(c *core.Ctx, i int) {
 		return
 	}
 	_ = before
+	// epilogue: encoders, codecs and schemas for the holder now exist in this process. One more registration -
+	// of the schema only, or of the builder only - and a new encoder must follow it: the most recent registration
+	// wins whatever was built before it.
+	if i%2 == 0 {
+		regSchema()
+	} else {
+		c20gen++
+		latest = c20gen
+		c20register(k, latest)
+	}
+	rep["registered_schema"] = curSchema
+	var buf2 bytes.Buffer
+	sess2, err := k.session(&buf2, comp, 0)
+	if err == nil {
+		for _, v := range vals {
+			if err == nil {
+				err = sess2.Encode(v)
+			}
+		}
+		if err == nil {
+			err = sess2.Flush()
+		}
+	}
+	if err != nil {
+		c.Violate("encoder", fmt.Sprintf("%s: a new encoder after one more registration fails: %v", k.name, err), rep)
+		return
+	}
+	cont2, perr := refavro.ReadContainer(buf2.Bytes())
+	if perr != nil {
+		c.Violate("invalid-file", fmt.Sprintf("%s: after one more registration the reference reader rejects the file: %v", k.name, perr), rep)
+		return
+	}
+	m2 := &c20model{k: k, regSchema: curSchema}
+	if d := refavro.Diff(stripAll(cont2.Schema), stripAll(m2.schemaFor(k.holder, false)), "schema"); d != "" {
+		c.Violate("stale-registration", fmt.Sprintf("%s: an encoder created after a schema-only re-registration (with encoders for the same row type created before it) does not emit the most recent registered schema: %s\n got %s", k.name, d, cont2.SchemaJSON), rep)
+		return
+	}
+	if i%2 == 1 && log.builds[latest] == 0 {
+		c.Violate("stale-registration", fmt.Sprintf("%s: an encoder created after a builder-only re-registration did not consult the most recent builder (builds by id: %v)", k.name, log.builds), rep)
+		return
+	}
+	recs2 := cont2.AllRecords()
+	if len(recs2) != n {
+		c.Violate("count", fmt.Sprintf("%d records written after re-registration, %d in file", n, len(recs2)), rep)
+		return
+	}
+	for j, d := range recs2 {
+		if df := m2.match(k.holder, vals[j], false, cont2.Schema, d, fmt.Sprintf("rec[%d]", j)); df != "" {
+			c.Violate("encoding-position", fmt.Sprintf("%s (after one more registration): %s", k.name, df), rep)
+			return
+		}
+	}
+	c.Count("re-registration-epilogues", 1)
 	c.Shape(fmt.Sprintf("%s|reg%d|order%d|%s", k.name, nreg, order, comp))
 	c.Sample(map[string]any{"type": k.name, "registered_schema": k.schema, "registrations": nreg, "records": n, "custom_writes": m.writes})
 }
